@@ -40,7 +40,7 @@ type Config struct {
 
 func DefaultConfig() Config {
 	return Config{Solver: "z3-new", TimeoutMs: 10000, MaxDecisions: 4000, MaxInstrs: 20_000_000, MaxFork: 128, MaxSymArray: 1100,
-		MaxAlloc: 4096, MaxThreads: 8, PreemptBound: -1, Unwind: 256, MaxPaths: 200000, MaxViolations: 3, Workers: 8, FallbackMs: 60000}
+		MaxAlloc: 4096, MaxThreads: 12, PreemptBound: -1, Unwind: 256, MaxPaths: 200000, MaxViolations: 3, Workers: 8, FallbackMs: 60000}
 }
 
 type WorkItem struct {
